@@ -42,18 +42,24 @@ pub fn level_sort_sorts_by_descending_name_length() {
 #[kani::unwind(8)]
 pub fn max_level_is_the_maximum() {
     let (a, b, c): (u8, u8, u8) = (kani::any(), kani::any(), kani::any());
-    let n: u8 = kani::any();
-    kani::assume(n <= 3);
-    let mut v = Vec::new();
-    if n >= 1 { v.push(ModuleFilter { module_name: None, level_filter: any_filter(a) }); }
-    if n >= 2 { v.push(ModuleFilter { module_name: Some(String::from("a")), level_filter: any_filter(b) }); }
-    if n >= 3 { v.push(ModuleFilter { module_name: Some(String::from("ab")), level_filter: any_filter(c) }); }
+    let v = vec![
+        ModuleFilter { module_name: Some(String::from("ab")), level_filter: any_filter(a) },
+        ModuleFilter { module_name: Some(String::from("a")), level_filter: any_filter(b) },
+        ModuleFilter { module_name: None, level_filter: any_filter(c) },
+    ];
     let spec = LogSpecification { module_filters: v, #[cfg(feature = "textfilter")] textfilter: None };
     let m = spec.max_level();
-    let mut want = LevelFilter::Off;
-    if n >= 1 && any_filter(a) > want { want = any_filter(a); }
-    if n >= 2 && any_filter(b) > want { want = any_filter(b); }
-    if n >= 3 && any_filter(c) > want { want = any_filter(c); }
-    assert!(m == want, "max_level == maximum of the filters, Off for the empty specification");
-    kani::cover!(n == 3);
+    let mut want = any_filter(a);
+    if any_filter(b) > want { want = any_filter(b); }
+    if any_filter(c) > want { want = any_filter(c); }
+    assert!(m == want, "max_level == maximum of the level filters");
+    kani::cover!(m == LevelFilter::Off);
+}
+
+#[kani::proof]
+#[kani::unwind(4)]
+pub fn max_level_of_the_empty_specification_is_off() {
+    let spec = LogSpecification { module_filters: Vec::new(), #[cfg(feature = "textfilter")] textfilter: None };
+    assert!(spec.max_level() == LevelFilter::Off);
+    kani::cover!(true);
 }
